@@ -302,7 +302,7 @@ theorem packIdx_basic : ∀ (ts : List Ty) (cx : Cx) (fx : Fx) (pre vs : List V)
           have hcast : ((pre ++ [x]).length : Int) = (pre.length : Int) + 1 := by simp
           rw [hcast] at hbs
           simp only [List.append_assoc, List.singleton_append] at hbs
-          simp only [hidx, R.bind_ok, hb, hbs, R.pure_eq]
+          simp only [pyIndexO, hidx, R.bind_ok, hb, hbs, R.pure_eq]
         · intro y hy
           cases hy with
           | head => exact hbb
@@ -327,7 +327,7 @@ theorem packNT_basic : ∀ (cls : String) (fs : List (String × Ty)) (cx : Cx) (
           have hcast : ((pre ++ [x]).length : Int) = (pre.length : Int) + 1 := by simp
           rw [hcast] at hbs
           simp only [List.append_assoc, List.singleton_append] at hbs
-          simp only [hidx, R.bind_ok, hb, hbs, R.pure_eq]
+          simp only [pyIndexO, hidx, R.bind_ok, hb, hbs, R.pure_eq]
         · intro y hy
           cases hy with
           | head => exact hbb
